@@ -49,6 +49,9 @@ def instances(tier):
         out.append({"kind": "error_cycle", "gen": g})
         out.append({"kind": "unknown_entity", "gen": g})
         out.append({"kind": "noncontiguous", "gen": g})
+        # history: a complete report, a partial report that changes one entity, the same complete report again
+        out.append({"kind": "full_partial_full", "gen": g, "what": "zone"})
+        out.append({"kind": "full_partial_full", "gen": g, "what": "ac"})
         if tier == "thorough":
             out.append({"kind": "ac_status", "gen": g, "frames": 3})
             out.append({"kind": "zone_status", "gen": g, "frames": 3})
@@ -280,6 +283,38 @@ def run(ctx, p):
             zn = sorted(last)[ctx.choice("which_zone", len(last))] if len(last) > 1 else sorted(last)[0]
             getter = ZONE_GETTERS[ctx.choice("getter", len(ZONE_GETTERS))]
             _check_zone_getter(ctx, g.n, rig.zone(zn), last[zn], getter)
+        elif kind == "full_partial_full":
+            if p["what"] == "zone":
+                zn = ctx.choice("zone", 4)
+                r, e = _sym_zone_record(ctx, g.n, zn, "a")
+                inst.zone_status[zn] = r
+                full = con.zone_status_frame(pid=0x52)
+                push(full)
+                other = (r4.build_group_status(zn, 3, 0, 35, 1, 1, 18, 1, 650, 1) if g.n == 4 else r5.build_zone_status(zn, 3, 0, 35, 80, 1, 650, 1, 1))
+                keep = dict(inst.zone_status)
+                inst.zone_status = {zn: other}
+                push(con.zone_status_frame(pid=0x53, only=[zn]))
+                inst.zone_status = keep
+                push(list(full))
+                ctx.check(len(rig.net.conns) == n_conn and not rig.task_failures(), "frame_accepted")
+                getter = ZONE_GETTERS[ctx.choice("getter", len(ZONE_GETTERS))]
+                _check_zone_getter(ctx, g.n, rig.zone(zn), e, getter)
+            else:
+                ac = ctx.choice("ac", 2)
+                r, e = _sym_ac_record(ctx, g.n, ac, "a")
+                ctx.assume(e["error_code"] == 0)
+                inst.ac_status[ac] = r
+                full = con.ac_status_frame(pid=0x52)
+                push(full)
+                other = (r4.build_ac_status(ac, 0, 1, 3, 1, 1, 19, 600, 0) if g.n == 4 else r5.build_ac_status(ac, 0, 1, 3, 90, 0, 0, 1, 1, 600, 0))
+                keep = dict(inst.ac_status)
+                inst.ac_status = {ac: other}
+                push(con.ac_status_frame(pid=0x53, only=[ac]))
+                inst.ac_status = keep
+                push(list(full))
+                ctx.check(len(rig.net.conns) == n_conn and not rig.task_failures(), "frame_accepted")
+                getter = AC_GETTERS[ctx.choice("getter", len(AC_GETTERS))]
+                _check_ac_getter(ctx, g.n, rig.ac(ac), e, inst.acs[ac], getter)
         elif kind == "timers":
             A = api()
             ac = ctx.choice("ac", 2)
